@@ -48,7 +48,9 @@ type Scenario struct {
 	Setup    []Op        `json:"setup,omitempty"`
 	Variants []Variant   `json:"variants,omitempty"`
 	Infl     *InflCase   `json:"infl,omitempty"`
-	Note     string      `json:"note,omitempty"`
+	// ExternalRoot: load an existing module read-only instead of a synthetic one (C13 on /repo's closure).
+	ExternalRoot string `json:"external_root,omitempty"`
+	Note         string `json:"note,omitempty"`
 }
 
 // ---- the declaration pool: what scripted generators render -----------------
